@@ -60,6 +60,29 @@ class Folder(object):
         owner = [c for c in cls.mro if isinstance(c, ClassInfo) and name in c.attrs][0]
         return self.fold(node, owner.module, owner)
 
+    def _prop_table(self, cls, prop, _depth):
+        """value of a read only property whose getter is `return self.<table>` / `return self.<table>.keys()` (Format.arguments_keys, ...)"""
+        g = cls.lookup_prop(prop, "getter")
+        body = [st for st in g.node.body if not (isinstance(st, ast.Expr) and isinstance(st.value, ast.Constant))] if g is not None else []
+        if len(body) != 1 or not isinstance(body[0], ast.Return) or body[0].value is None or not g.params:
+            raise Unfoldable("property %s.%s is not a plain table read" % (cls.name, prop))
+        v = body[0].value
+        keys = False
+        if isinstance(v, ast.Call) and isinstance(v.func, ast.Attribute) and v.func.attr == "keys" and not v.args:
+            v, keys = v.func.value, True
+        elif isinstance(v, ast.Call) and isinstance(v.func, ast.Name) and v.func.id in ("list", "tuple", "sorted") and len(v.args) == 1:
+            inner = v.args[0]
+            if isinstance(inner, ast.Call) and isinstance(inner.func, ast.Attribute) and inner.func.attr == "keys" and not inner.args:
+                inner = inner.func.value
+            srt = v.func.id == "sorted"
+            if isinstance(inner, ast.Attribute) and unparse(inner.value) == g.params[0]:
+                t = self.class_attr(cls, inner.attr)
+                return sorted(t) if srt else list(t)
+        if isinstance(v, ast.Attribute) and unparse(v.value) == g.params[0]:
+            t = self.class_attr(cls, v.attr)
+            return list(t.keys()) if keys and isinstance(t, dict) else t
+        raise Unfoldable("property %s.%s is not a plain table read" % (cls.name, prop))
+
     def fold(self, node, mod, cls=None, _depth=0, env=None):
         if _depth > 12:
             raise Unfoldable("too deep")
@@ -105,7 +128,11 @@ class Folder(object):
                 r = self.p.resolve_expr_to_symbol(mod, base)
                 if isinstance(r, ModuleInfo):
                     return self.module_const(r.name, node.attr, _depth + 1)
+                if isinstance(r, tuple) and r and r[0] == "instance" and isinstance(r[1], ClassInfo):
+                    r = r[1]         # format.py: `Document = Document()` - the instance reads the class level tables
                 if isinstance(r, ClassInfo):
+                    if r.lookup_attr(node.attr) is None and r.has_prop(node.attr):
+                        return self._prop_table(r, node.attr, _depth)
                     return self.class_attr(r, node.attr)
             raise Unfoldable("attribute %s" % unparse(node))
         if isinstance(node, ast.BinOp):
